@@ -244,6 +244,14 @@ fn check_case(c: &Corpus, lay: &Layout, tf: &TextField, text: &str, family: usiz
                     a[tf.off + i] = 0;
                     b[tf.off + i] = 0x41 + (r.below(50) as u8);
                 }
+                // the bytes after the first NUL may themselves hold NULs (LFS's own BTN caption form is NUL, caption,
+                // NUL, text): one or two more, anywhere behind at least one garbage byte
+                if width - cut >= 4 && r.chance(2, 3) {
+                    for _ in 0..1 + r.usize_below(2) {
+                        let at = cut + 2 + r.usize_below(width - cut - 2);
+                        b[tf.off + at] = 0;
+                    }
+                }
                 p.evaluations += 1;
                 match (real_decode(&a, compressed), real_decode(&b, compressed)) {
                     (Dec::Packet(pa, _), Dec::Packet(pb, _)) => {
@@ -311,7 +319,15 @@ pub fn run(ctx: &mut Ctx) -> (&'static str, String, bool) {
                         continue;
                     }
                     let text = make_text(family, units, &mut r);
-                    check_case(c, lay, tf, &text, family, &base, &mut r, &mut p);
+                    // the packet's other fields: the first assignment, or (every third step) a fresh boundary-biased one,
+                    // so that a rule keyed on another field (BTN TypeIn, MSO UserType, flags) meets every text shape
+                    if units % 3 == 2 {
+                        let o2 = GenOpts { text: TextMode::Ascii, max_list: Some(1), boundary: 3, hostile: false };
+                        let other = c.gen().packet(&mut r, lay, &o2);
+                        check_case(c, lay, tf, &text, family, &other, &mut r, &mut p);
+                    } else {
+                        check_case(c, lay, tf, &text, family, &base, &mut r, &mut p);
+                    }
                 }
             }
             p.count(&format!("field_{}.{}", tf.kind, tf.path.join(".")), p.evaluations);
